@@ -6,9 +6,9 @@
 (* is part of the VIEW.                                                    *)
 EXTENDS Groups, Json
 
-CONSTANTS ConsumerSet, StreamSet, MaxParts, MaxOps, Coords, MaxDeletes, GetDs
-VARIABLES last, nOps, nDel, taint
-mcvars == <<vars, last, nOps, nDel, taint>>
+CONSTANTS ConsumerSet, StreamSet, MaxParts, MaxOps, Coords, MaxDeletes, GetDs, MaxRestores
+VARIABLES last, nOps, nDel, nRes, taint
+mcvars == <<vars, last, nOps, nDel, nRes, taint>>
 
 Rep == CHOOSE v \in Servers : TRUE
 G == gs[Rep]
@@ -25,41 +25,48 @@ MCInit ==
   /\ parts \in [StreamSet -> 0..MaxParts]
   /\ idx = 0
   /\ obs = Obs("Open", "", "", <<>>)
-  /\ last = [a |-> "Open"] /\ nOps = 0 /\ nDel = 0 /\ taint = {}
+  /\ last = [a |-> "Open"] /\ nOps = 0 /\ nDel = 0 /\ nRes = 0 /\ taint = {}
 
 MCCreateStream(s, n) ==
   /\ ~Exists(s) /\ DoCreateStream(s, n)
-  /\ Step([a |-> "CreateStream", s |-> s, n |-> n]) /\ UNCHANGED <<nDel, taint>>
+  /\ Step([a |-> "CreateStream", s |-> s, n |-> n]) /\ UNCHANGED <<nDel, nRes, taint>>
 MCDeleteStream(s) ==
   /\ Exists(s) /\ nDel < MaxDeletes /\ DoDeleteStream(s)
-  /\ Step([a |-> "DeleteStream", s |-> s]) /\ nDel' = nDel + 1 /\ taint' = taint \cup Taints
+  /\ Step([a |-> "DeleteStream", s |-> s]) /\ nDel' = nDel + 1 /\ UNCHANGED nRes /\ taint' = taint \cup Taints
 MCCreateGroup(c, S, coord) ==
   /\ ~GroupExists /\ S # {} /\ S \subseteq Existing /\ DoCreateGroup(c, S, coord)
   /\ Step([a |-> "CreateGroup", c |-> c, streams |-> SeqOf(S), coord |-> coord])
-  /\ UNCHANGED nDel /\ taint' = taint \cup Taints
+  /\ UNCHANGED <<nDel, nRes>> /\ taint' = taint \cup Taints
 MCJoin(c, S) ==
   /\ GroupExists /\ c \notin Members(G) /\ S # {} /\ S \subseteq Existing /\ DoJoin(c, S)
-  /\ Step([a |-> "Join", c |-> c, streams |-> SeqOf(S)]) /\ UNCHANGED nDel /\ taint' = taint \cup Taints
+  /\ Step([a |-> "Join", c |-> c, streams |-> SeqOf(S)]) /\ UNCHANGED <<nDel, nRes>> /\ taint' = taint \cup Taints
 \* how = "leave" | "expire": an expiry is the coordinator's liveness timer
 \* proposing the same operation
 MCLeave(c, how) ==
   /\ GroupExists /\ c \in Members(G) /\ (how = "expire" => G.coord \in Servers) /\ DoLeave(c)
-  /\ Step([a |-> "Leave", c |-> c, how |-> how]) /\ UNCHANGED nDel /\ taint' = taint \cup Taints
+  /\ Step([a |-> "Leave", c |-> c, how |-> how]) /\ UNCHANGED <<nDel, nRes>> /\ taint' = taint \cup Taints
 MCChangeCoordinator(coord) ==
   /\ GroupExists /\ coord # G.coord /\ DoChangeCoordinator(coord)
-  /\ Step([a |-> "ChangeCoordinator", coord |-> coord]) /\ UNCHANGED nDel /\ taint' = taint \cup Taints
+  /\ Step([a |-> "ChangeCoordinator", coord |-> coord]) /\ UNCHANGED <<nDel, nRes>> /\ taint' = taint \cup Taints
 MCRunSD(v, s, e) ==
   LET x == [s |-> s, e |-> e] IN
   /\ x \in pend[v] /\ DoRunSD(v, x)
-  /\ Step([a |-> "RunSD", srv |-> v, s |-> x.s, e |-> x.e]) /\ UNCHANGED nDel
+  /\ Step([a |-> "RunSD", srv |-> v, s |-> x.s, e |-> x.e]) /\ UNCHANGED <<nDel, nRes>>
   /\ taint' = taint \cup (IF LateFor(v, x) /\ ~SDRefused(gs[v], x.e) THEN {"late"} ELSE {})
                     \cup (IF gs[v].exists /\ SDRefused(gs[v], x.e) THEN {"refused"} ELSE {})
+AllCPerms == UNION {{q \in [1..Cardinality(S) -> S] : \A i, j \in DOMAIN q : i # j => q[i] # q[j]} : S \in SUBSET ConsumerSet}
+MCRestore(v, ord) ==
+  /\ nRes < MaxRestores /\ gs[v].exists
+  /\ {ord[i] : i \in DOMAIN ord} = Members(gs[v]) /\ Len(ord) = Cardinality(Members(gs[v]))
+  /\ DoRestore(v, ord)
+  /\ Step([a |-> "Restore", srv |-> v, order |-> ord]) /\ nRes' = nRes + 1 /\ UNCHANGED nDel
+  /\ taint' = taint \cup (IF RestoreNeutral(gs[v]) THEN {} ELSE {"restored"})
 \* not counted: does not change the state
 \* d = how far behind the current epoch the client's epoch is
 MCGetAssignments(v, c, d) ==
   /\ gs[v].exists /\ gs[v].epoch >= d /\ DoGetAssignments(v, c, gs[v].epoch - d)
   /\ last' = [a |-> "GetAssignments", srv |-> v, c |-> c, d |-> d, e |-> gs[v].epoch - d]
-  /\ UNCHANGED <<nOps, nDel, taint>>
+  /\ UNCHANGED <<nOps, nDel, nRes, taint>>
 
 MCNext ==
   \/ \E s \in StreamSet, n \in 1..MaxParts : MCCreateStream(s, n)
@@ -69,6 +76,7 @@ MCNext ==
   \/ \E c \in ConsumerSet, how \in {"leave", "expire"} : MCLeave(c, how)
   \/ \E coord \in Coords : MCChangeCoordinator(coord)
   \/ \E v \in Servers, s \in StreamSet, e \in 1..MaxOps : MCRunSD(v, s, e)
+  \/ \E v \in Servers, ord \in AllCPerms : MCRestore(v, ord)
   \/ \E v \in Servers, c \in ConsumerSet, d \in GetDs : MCGetAssignments(v, c, d)
 
 MCSpec == MCInit /\ [][MCNext]_mcvars
@@ -80,16 +88,20 @@ StepOK ==
     [] a.a = "CreateGroup" -> \A v \in Servers : gs'[v].exists /\ Members(gs'[v]) = {a.c}
     [] a.a = "Leave" -> P_Leave(a.c)
     [] a.a = "RunSD" -> P_RunSD(a.srv, [s |-> a.s, e |-> a.e])
+    [] a.a = "Restore" -> P_Restore(a.srv)
     [] OTHER -> P_Other
 StepsOK == [][StepOK]_mcvars
 
 Clean == taint = {}
+\* a rebuilt group may differ from the live one (known finding), but it must be a
+\* VALID assignment whatever its history
+SDClean == taint \cap {"overtaken", "refused", "late"} = {}
 \* single-server requirements do not depend on the other server; they break
 \* only when an announcement was refused or came late
-Inv_ExactlyOne == Clean => C12_ExactlyOne
+Inv_ExactlyOne == SDClean => C12_ExactlyOne
 Inv_NoForeign == C12_NoForeign
-Inv_AssignedExist == Clean => C12_AssignedExist
-Inv_Balanced == Clean => C12_Balanced
+Inv_AssignedExist == SDClean => C12_AssignedExist
+Inv_Balanced == SDClean => C12_Balanced
 Inv_SameEpochSame == Clean => C12_SameEpochSame
 Inv_Converged == Clean => C12_Converged
 Inv_Impl == ImplInv
@@ -100,5 +112,5 @@ NeverLate == "late" \notin taint
 Raw_SameEpochSame == C12_SameEpochSame
 Raw_AssignedExist == C12_AssignedExist
 
-MCView == <<gs, pend, parts, idx, nOps, nDel, taint>>
+MCView == <<gs, pend, parts, idx, nOps, nDel, nRes, taint>>
 =============================================================================
